@@ -65,6 +65,8 @@ class Flow:
         self._uid = itertools.count(1)
         self._seq = itertools.count(1)
         self.all_loops: dict = {}
+        self.assigns: dict = {}
+        self.alias_of: dict = {}
         self.consts = consts or {}
         self.acc = self._find_acc(func)
         a = func.args
@@ -250,10 +252,10 @@ class Flow:
     # ---- binding ----------------------------------------------------------
     def bind(self, target, value, node):
         if isinstance(target, ast.Name):
-            if target.id in self.acc and (self.loops or target.id in self.env and self.env[target.id][0] != "param"):
+            if target.id in self.acc:
                 self.fact("init", target.id, None, "=", value, node)
-            elif target.id in self.acc:
-                self.fact("init", target.id, None, "=", value, node)
+            self.assigns.setdefault(target.id, []).append(
+                (value, tuple(self.loops), tuple(self.guards), getattr(node, "lineno", 0), next(self._seq)))
             self.env[target.id] = value
         elif isinstance(target, (ast.Tuple, ast.List)):
             star = [i for i, e in enumerate(target.elts) if isinstance(e, ast.Starred)]
@@ -344,6 +346,11 @@ class Flow:
         v = self.ev(s.value)
         for t in s.targets:
             self.bind(t, v, s)
+            if isinstance(t, ast.Name):
+                if isinstance(s.value, ast.Name) and v[0] not in ("const", "param", "global"):
+                    self.alias_of[t.id] = s.value.id
+                else:
+                    self.alias_of.pop(t.id, None)
 
     def s_AnnAssign(self, s):
         if s.value is not None:
@@ -380,7 +387,10 @@ class Flow:
                 if f.attr == "remove" and len(args) == 1:
                     self.fact("remove", name, None, "remove", args[0], s)
                     if name not in self.acc:
-                        self.env[name] = ("removeone", self.env[name], args[0])
+                        cur = self.env[name]
+                        if name in self.alias_of:
+                            cur = ("aliased", cur, self.alias_of[name])
+                        self.env[name] = ("removeone", cur, args[0])
                     return
                 if f.attr in ("extend", "update", "insert", "pop", "clear", "sort", "reverse"):
                     self.fact("mutate", name, None, f.attr, args[0] if args else None, s, args=args)
@@ -848,7 +858,11 @@ def _lower(v, lw) -> str:
                 if e[0] == "star":
                     if is_str(e[1]):
                         lw.errors.append(("star-of-str", e[1]))
-                        pieces.append(lw.hole(e))
+                        if e[1][0] == "join" and e[1][1] == sep:
+                            # keep analysing the intended product; the unpacking itself is the finding
+                            pieces.append(lw.seq(sep[1], e[1][2]))
+                        else:
+                            pieces.append(lw.hole(e))
                     else:
                         pieces.append(lw.seq(sep[1], e[1]))
                 else:
@@ -856,3 +870,22 @@ def _lower(v, lw) -> str:
             return sep[1].join(pieces)
         return lw.seq(sep[1], seq)
     return lw.hole(v)
+
+
+def canon_ids(v, loopmap=None):
+    """Rename loop ids (per `loopmap`) and bound-variable uids (in order of
+    appearance) so that two reconstructions of the same shape compare equal."""
+    loopmap = loopmap or {}
+    bvs = {}
+
+    def rec(x):
+        if not isinstance(x, tuple) or not x:
+            return x
+        if x[0] == "bv" and len(x) == 3:
+            if x not in bvs:
+                bvs[x] = ("bv", x[1] if False else "_", len(bvs))
+            return bvs[x]
+        if x[0] in ("elem", "idx", "key", "val") and len(x) == 3:
+            return (x[0], rec(x[1]), loopmap.get(x[2], x[2]))
+        return tuple(rec(y) for y in x)
+    return rec(v)
